@@ -7,6 +7,21 @@
     honest high-ratio members; outcome ZipBomb error <=> reference predicate on the real infolist.
 (c) ordering: harness-side monitor around zipfile.ZipFile / validate_zipfile: every ZipFile whose members are read
     was preceded, in the same extraction call, by a successful validation of a ZipFile over the same bytes.
+(d) histories: the decision is a function of (container bytes, limits) ONLY - not of what the same process, the same
+    stream object or the same bytes went through before. Every history of calls over a step alphabet is run under four
+    stream carriers: "rewrite" (ONE BytesIO, seek(0)/truncate/write per document), "reinit" (ONE BytesIO, re-initialised
+    with BytesIO.__init__(data)), "fresh-keep" (a new BytesIO per call, the old ones stay alive) and "fresh-drop" (a new
+    BytesIO per call, the previous one released first, so object ids are recycled).
+    (d1) extractor level: step = (format, variant) with variant in HIST_VARIANTS (3 accepted and 4 rejected containers,
+         boundary ones included), default limits. quick: all ordered pairs within a format (9 x 7^2) + all ordered pairs
+         across formats over {minimal, honest-zeros} (18^2); thorough: all ordered pairs over the full 63-symbol alphabet +
+         all triples within a format (9 x 7^3). Oracle per step: zip-bomb error <=> reference predicate on the real infolist
+         (clause "history"); no member is read from bytes that no successful validation (in this call or earlier in the
+         history, i.e. a content-keyed memo would be legal) has covered (clause "history-order").
+    (d2) helper level: step = (document, entry point, limits): 5 small documents (accepted everywhere / only under loose
+         limits / rejected everywhere) x {open_zipfile, validate_zip_bytesio} x {strict, default, loose limits} +
+         {ZipContext, is_odf_encrypted} x default limits = 40 symbols; quick: all ordered pairs, thorough: all triples. Oracle per
+         step: rejected <=> reference (clause "history"), validate_zip_bytesio leaves the position alone (clause "position").
 """
 from __future__ import annotations
 
@@ -355,7 +370,317 @@ def ordering_part(arg):
     return {"ev": ev, "fails": fails, "outs": outs, "samples": [{"fmt": fmt, "events": len(log)}]}
 
 
+
+# ------------------------------------------------------------------ (d) histories: the verdict depends on bytes + limits only
+
+CARRIERS = ["rewrite", "reinit", "fresh-keep", "fresh-drop"]
+HIST_VARIANTS = ["minimal", "honest-mild", "entryratio+0", "honest-zeros", "entryratio+1", "zerocomp", "dosattr-file-bomb"]
+HIST_CROSS_QUICK = ["minimal", "honest-zeros"]
+_DOCS = {}
+
+
+def hist_docs(fmt):
+    """variant -> (bytes, reference verdict under the default limits) for one format."""
+    if fmt not in _DOCS:
+        d = {"minimal": minimal(fmt)}
+        for label, data in forged_variants(fmt, "quick", "-"):
+            if label in HIST_VARIANTS:
+                d[label] = data
+        out = {}
+        for label in HIST_VARIANTS:
+            with zipfile.ZipFile(io.BytesIO(d[label])) as z:
+                ents = [(i.file_size, i.compress_size, i.is_dir()) for i in z.infolist()]
+            out[label] = (d[label], ref_is_bomb(ents, DEFAULTS))
+        _DOCS[fmt] = out
+    return _DOCS[fmt]
+
+
+class _Carrier:
+    """Hands out the stream for the next document of a history."""
+
+    def __init__(self, kind):
+        self.kind = kind
+        self.shared = io.BytesIO()
+        self.alive = []
+        self.cur = None
+
+    def stream(self, data):
+        k = self.kind
+        if k == "rewrite":
+            s = self.shared
+            s.seek(0)
+            s.truncate(0)
+            s.write(data)
+            s.seek(0)
+        elif k == "reinit":
+            s = self.shared
+            s.__init__(data)
+        elif k == "fresh-keep":
+            s = io.BytesIO(data)
+            self.alive.append(s)
+        elif k == "fresh-drop":
+            self.cur = None          # release the previous stream first: its id / memory may be handed out again
+            s = io.BytesIO(data)
+            self.cur = s
+        else:
+            raise ValueError(k)
+        return s
+
+
+class _Monitor:
+    """Records which bytes were validated and which bytes had members read (content hash of the ZipFile's file object)."""
+
+    def __init__(self):
+        self.log = []
+        self.zf_hash = {}
+
+    @staticmethod
+    def h_of(file):
+        try:
+            if hasattr(file, "getvalue"):
+                return hashlib.sha1(file.getvalue()).hexdigest()
+            if isinstance(file, (str, bytes, os.PathLike)):
+                with open(file, "rb") as fh:
+                    return hashlib.sha1(fh.read()).hexdigest()
+            pos = file.tell()
+            file.seek(0)
+            d = file.read()
+            file.seek(pos)
+            return hashlib.sha1(d).hexdigest()
+        except Exception:
+            return None
+
+    def __enter__(self):
+        from sharepoint2text.parsing.extractors.util import zip_bomb
+        self.zb = zip_bomb
+        self.o_init, self.o_open, self.o_val = zipfile.ZipFile.__init__, zipfile.ZipFile.open, zip_bomb.validate_zipfile
+        mon = self
+
+        def init(zf, file, *a, **kw):
+            mon.zf_hash[id(zf)] = mon.h_of(file)
+            return mon.o_init(zf, file, *a, **kw)
+
+        def open_(zf, name, *a, **kw):
+            mon.log.append(("read", mon.zf_hash.get(id(zf)), getattr(name, "filename", name)))
+            return mon.o_open(zf, name, *a, **kw)
+
+        def validate(zf, *a, **kw):
+            r = mon.o_val(zf, *a, **kw)
+            mon.log.append(("validated", mon.zf_hash.get(id(zf)), None))
+            return r
+        zipfile.ZipFile.__init__ = init
+        zipfile.ZipFile.open = open_
+        zip_bomb.validate_zipfile = validate
+        return self
+
+    def __exit__(self, *a):
+        zipfile.ZipFile.__init__ = self.o_init
+        zipfile.ZipFile.open = self.o_open
+        self.zb.validate_zipfile = self.o_val
+        return False
+
+
+def _extract_stream(fmt, stream):
+    import sharepoint2text
+    from sharepoint2text.parsing.exceptions import ExtractionError, ExtractionZipBombError
+    try:
+        list(sharepoint2text.get_extractor("a." + fmt)(stream, "a." + fmt))
+        return "ok"
+    except ExtractionZipBombError:
+        return "bomb"
+    except ExtractionError as e:
+        return "error:" + type(e).__name__
+    except Exception as e:  # noqa
+        return "escape:" + type(e).__name__
+
+
+def _verdicts(exp):
+    return ["bomb" if e else "ok" for e in exp]
+
+
+def run_history(steps, carrier, mon):
+    """steps: [(fmt, variant)]. Returns (failures [(clause, msg)], outcome strings, evaluations)."""
+    car = _Carrier(carrier)
+    fails = []
+    outs = []
+    covered = set()                      # content hashes a successful validation has covered so far in this history
+    exps = [hist_docs(f)[v][1] for f, v in steps]
+    for i, (fmt, var) in enumerate(steps):
+        data, exp = hist_docs(fmt)[var]
+        del mon.log[:]
+        mon.zf_hash.clear()
+        got = _extract_stream(fmt, car.stream(data))
+        outs.append(got)
+        where = f"step {i + 1}/{len(steps)} of {[list(s) for s in steps]} on carrier {carrier!r}"
+        if (got == "bomb") != exp:
+            fails.append(("history", f"{where}: {fmt} {var} outcome {got}, reference bomb={exp} (same document in a stream of its own: "
+                                     f"{_extract(fmt, data)})"))
+        if got.startswith("escape"):
+            fails.append(("raises", f"{where}: {fmt} {var}: {got}"))
+        for kind, hsh, name in mon.log:
+            if kind == "validated":
+                covered.add(hsh)
+            elif hsh not in covered:
+                fails.append(("history-order", f"{where}: {fmt} {var}: member {name!r} read from bytes that no validation has covered (outcome {got})"))
+                break
+    return fails, outs, len(steps), exps
+
+
+def _hist_case(steps, carrier, exps):
+    return {"history": [list(s) for s in steps], "carrier": carrier, "expect": _verdicts(exps)}
+
+
+def history_part(arg):
+    """arg = (mode, fmt, tier): mode 'same' = histories within fmt; 'cross' = histories whose FIRST step is of fmt."""
+    mode, fmt, tier = arg
+    ev = 0
+    fails = []
+    outs = {}
+    if mode == "same":
+        alpha = [(fmt, v) for v in HIST_VARIANTS]
+        lengths = (2,) if tier == "quick" else (2, 3)
+        hists = [h for L in lengths for h in itertools.product(alpha, repeat=L)]
+    else:
+        vs = HIST_CROSS_QUICK if tier == "quick" else HIST_VARIANTS
+        hists = [((fmt, v), (f2, v2)) for v in vs for f2 in FORMATS if f2 != fmt for v2 in vs]
+    n_h = 0
+    with _Monitor() as mon:
+        for steps in hists:
+            for carrier in CARRIERS:
+                fl, got, n, exps = run_history(steps, carrier, mon)
+                ev += n
+                n_h += 1
+                key = f"{mode}:{carrier}:{'>'.join(_verdicts(exps))}:{'>'.join(g.split(':')[0] for g in got)}"
+                outs[key] = outs.get(key, 0) + 1
+                if len(fails) < 400:
+                    fails += [(c, "history", _hist_case(steps, carrier, exps), m) for c, m in fl]
+    return {"ev": ev, "fails": fails, "outs": outs, "samples": [{"history_mode": mode, "first_fmt": fmt, "histories": n_h}]}
+
+
+# ---- (d2) helper level
+
+ULIMITS = {
+    "strict": {"max_entries": 3, "max_total_uncompressed_bytes": 5000, "max_single_uncompressed_bytes": 3000,
+               "max_total_compression_ratio": 20.0, "max_entry_compression_ratio": 50.0},
+    "default": DEFAULTS,
+    "loose": {"max_entries": 10 ** 9, "max_total_uncompressed_bytes": 1 << 50, "max_single_uncompressed_bytes": 1 << 50,
+              "max_total_compression_ratio": 1e12, "max_entry_compression_ratio": 1e12},
+}
+UENTRIES = [("open_zipfile", "strict"), ("open_zipfile", "default"), ("open_zipfile", "loose"),
+            ("validate_zip_bytesio", "strict"), ("validate_zip_bytesio", "default"), ("validate_zip_bytesio", "loose"),
+            ("ZipContext", "default"), ("is_odf_encrypted", "default")]
+UDOCS = ["ok", "mid", "count4", "zeros", "zerocomp"]
+_UDOCS = {}
+
+
+def util_docs():
+    if not _UDOCS:
+        from verif.gen import zipforge
+        man = {"name": "META-INF/manifest.xml", "method": 0,
+               "data": b'<manifest:manifest xmlns:manifest="urn:oasis:names:tc:opendocument:xmlns:manifest:1.0"/>'}
+        members = {
+            "ok": [man, {"name": "a.txt", "data": b"hello", "method": 0}],
+            "mid": [man, {"name": "a.txt", "data": b"\0" * 2000, "method": 8}],
+            "count4": [man] + [{"name": f"p{j}.txt", "data": b"hello", "method": 0} for j in range(3)],
+            "zeros": [man, {"name": "a.txt", "data": b"\0" * (1 << 20), "method": 8}],
+            "zerocomp": [man, {"name": "a.txt", "data": b"x" * 8, "method": 0, "file_size": 1000, "compress_size": 0}],
+        }
+        for k, m in members.items():
+            data = zipforge.zipforge(m)
+            with zipfile.ZipFile(io.BytesIO(data)) as z:
+                ents = [(i.file_size, i.compress_size, i.is_dir()) for i in z.infolist()]
+            _UDOCS[k] = (data, {ln: ref_is_bomb(ents, lim) for ln, lim in ULIMITS.items()})
+    return _UDOCS
+
+
+def _ucall(entry, lname, stream):
+    """-> ('ok' | 'bomb' | 'escape:..', position note or None)"""
+    from sharepoint2text.parsing.exceptions import ExtractionZipBombError
+    from sharepoint2text.parsing.extractors.util import encryption, zip_bomb, zip_context
+    lim = zip_bomb.ZipBombLimits(**ULIMITS[lname])
+    note = None
+    try:
+        if entry == "open_zipfile":
+            zip_bomb.open_zipfile(stream, limits=lim).close()
+        elif entry == "validate_zip_bytesio":
+            stream.seek(3)
+            try:
+                zip_bomb.validate_zip_bytesio(stream, limits=lim)
+            finally:
+                if stream.tell() != 3:
+                    note = f"validate_zip_bytesio moved the stream from 3 to {stream.tell()}"
+        elif entry == "ZipContext":
+            ctx = zip_context.ZipContext(stream)
+            try:
+                ctx.read_bytes("a.txt" if ctx.exists("a.txt") else "p0.txt")
+            finally:
+                ctx.close()
+        elif entry == "is_odf_encrypted":
+            encryption.is_odf_encrypted(stream)
+        else:
+            raise ValueError(entry)
+        return "ok", note
+    except ExtractionZipBombError:
+        return "bomb", note
+    except Exception as e:  # noqa
+        return "escape:" + type(e).__name__, note
+
+
+def run_uhistory(steps, carrier):
+    """steps: [(doc, entry, limits-name)]"""
+    car = _Carrier(carrier)
+    docs = util_docs()
+    fails = []
+    outs = []
+    exps = [docs[d][1][ln] for d, e, ln in steps]
+    for i, (d, entry, ln) in enumerate(steps):
+        data, exp = docs[d][0], docs[d][1][ln]
+        got, note = _ucall(entry, ln, car.stream(data))
+        outs.append(got)
+        where = f"step {i + 1}/{len(steps)} of {[list(s) for s in steps]} on carrier {carrier!r}"
+        if got.startswith("escape"):
+            fails.append(("raises", f"{where}: {got}"))
+        elif (got == "bomb") != exp:
+            fails.append(("history", f"{where}: {entry}({d!r}, {ln} limits) rejected={got == 'bomb'}, reference bomb={exp}"))
+        if note:
+            fails.append(("position", f"{where}: {note}"))
+    return fails, outs, len(steps), exps
+
+
+def _uhist_case(steps, carrier, exps):
+    return {"uhistory": [list(s) for s in steps], "carrier": carrier, "expect": _verdicts(exps)}
+
+
+def uhistory_part(arg):
+    carrier, k, n, tier = arg
+    alpha = [(d, e, ln) for d in UDOCS for e, ln in UENTRIES]
+    L = 2 if tier == "quick" else 3
+    ev = 0
+    fails = []
+    outs = {}
+    n_h = 0
+    for idx, first in enumerate(alpha):
+        if idx % n != k:
+            continue
+        for rest in itertools.product(alpha, repeat=L - 1):
+            steps = (first,) + rest
+            fl, got, m, exps = run_uhistory(steps, carrier)
+            ev += m
+            n_h += 1
+            key = f"util:{carrier}:{'>'.join(_verdicts(exps))}:{'>'.join(got)}"
+            outs[key] = outs.get(key, 0) + 1
+            if len(fails) < 400:
+                fails += [(c, "history-util", _uhist_case(steps, carrier, exps), msg) for c, msg in fl]
+    return {"ev": ev, "fails": fails, "outs": outs, "samples": [{"history_mode": "util", "carrier": carrier, "histories": n_h}]}
+
+
 def reexec(fmt, case):
+    if "history" in case:
+        with _Monitor() as mon:
+            fl = run_history([tuple(x) for x in case["history"]], case["carrier"], mon)[0]
+        return fl
+    if "uhistory" in case:
+        return run_uhistory([tuple(x) for x in case["uhistory"]], case["carrier"])[0]
     if fmt == "predicate":
         from sharepoint2text.parsing.exceptions import ExtractionZipBombError
         from sharepoint2text.parsing.extractors.util.zip_bomb import ZipBombLimits, validate_zipfile
@@ -376,7 +701,43 @@ def reexec(fmt, case):
     return [(c, m) for c, f, cs, m in r["fails"] if cs.get("variant") == case.get("variant") and cs.get("pos") == case.get("pos")]
 
 
+def _mk_hist(steps, carrier):
+    steps = [tuple(x) for x in steps]
+    return _hist_case(steps, carrier, [hist_docs(f)[v][1] for f, v in steps])
+
+
+def _mk_uhist(steps, carrier):
+    steps = [tuple(x) for x in steps]
+    return _uhist_case(steps, carrier, [util_docs()[d][1][ln] for d, e, ln in steps])
+
+
 def shrinks(case):
+    """histories: drop a step; then move one step towards the canonical symbol of the same verdict class (strictly smaller rank)."""
+    if "history" in case:
+        h, car = case["history"], case["carrier"]
+        if len(h) > 1:
+            for i in range(len(h)):
+                yield _mk_hist(h[:i] + h[i + 1:], car)
+        for i, (f, v) in enumerate(h):
+            bomb = hist_docs(f)[v][1]
+            canon = "honest-zeros" if bomb else "minimal"
+            if v != canon:
+                yield _mk_hist(h[:i] + [[f, canon]] + h[i + 1:], car)
+            if f != FORMATS[0]:
+                yield _mk_hist(h[:i] + [[FORMATS[0], v]] + h[i + 1:], car)
+        return
+    if "uhistory" in case:
+        h, car = case["uhistory"], case["carrier"]
+        if len(h) > 1:
+            for i in range(len(h)):
+                yield _mk_uhist(h[:i] + h[i + 1:], car)
+        for i, (d, e, ln) in enumerate(h):
+            for d2 in UDOCS[:UDOCS.index(d)]:
+                if util_docs()[d2][1][ln] == util_docs()[d][1][ln]:
+                    yield _mk_uhist(h[:i] + [[d2, e, ln]] + h[i + 1:], car)
+            if e != "open_zipfile":
+                yield _mk_uhist(h[:i] + [[d, "open_zipfile", ln]] + h[i + 1:], car)
+        return
     if "entries" in case:
         e = case["entries"]
         for i in range(len(e)):
@@ -384,6 +745,13 @@ def shrinks(case):
 
 
 def embeds(small, big):
+    for k in ("history", "uhistory"):
+        if k in small:
+            # same carrier, and the steps of the minimal history occur in order in the bigger one
+            if k not in big or small["carrier"] != big["carrier"]:
+                return False
+            it = iter(big[k])
+            return all(any(list(a) == list(b) for b in it) for a in small[k])
     if "entries" in small:
         if "entries" not in big or small["limits"] != big["limits"]:
             return False
@@ -403,13 +771,18 @@ def run(ctx):
     r1 = P.run_all("verif.props.C11", "predicate_part", [(k, n, ctx.tier) for k in range(n)], n=ctx.ncpu, hard_timeout=1800)
     r2 = P.run_all("verif.props.C11", "container_part", [(f, ctx.tier) for f in FORMATS], n=ctx.ncpu, hard_timeout=1800)
     r3 = P.run_all("verif.props.C11", "ordering_part", [(f, ctx.tier) for f in FORMATS], n=ctx.ncpu, hard_timeout=1800)
+    r4 = P.run_all("verif.props.C11", "history_part", [(m, f, ctx.tier) for m in ("same", "cross") for f in FORMATS], n=ctx.ncpu,
+                   hard_timeout=1800)
+    nu = 4 if ctx.tier == "quick" else 10
+    r5 = P.run_all("verif.props.C11", "uhistory_part", [(c, k, nu, ctx.tier) for c in CARRIERS for k in range(nu)], n=ctx.ncpu,
+                   hard_timeout=1800)
     ev = 0
     fails = []
     outs = {}
     samples = []
     herr = []
-    parts = {"predicate": 0, "container": 0, "ordering": 0}
-    for name, res in (("predicate", r1), ("container", r2), ("ordering", r3)):
+    parts = {"predicate": 0, "container": 0, "ordering": 0, "history": 0, "history-util": 0}
+    for name, res in (("predicate", r1), ("container", r2), ("ordering", r3), ("history", r4), ("history-util", r5)):
         for st, r, _ in res:
             if st != "done":
                 herr.append(f"{name} task failed: {st}: {str(r)[-600:]}")
@@ -425,8 +798,19 @@ def run(ctx):
                    "(each of the five limits at v / v+1) against an exact-rational reference; (b) 9 ZIP-container extractors x forged "
                    "central-directory variants at each default threshold -1/0/+1 (+ honest high-ratio members, directory entry ignored, entry "
                    "count 49999/50000/50001); (c) ordering monitor on zipfile.ZipFile reads vs validate_zipfile per extraction; "
+                   "(d) call histories x 4 stream carriers (one BytesIO rewritten / re-initialised, fresh stream kept / dropped): "
+                   + ("(d1) all ordered pairs of 7 container variants within each of 9 formats + all ordered cross-format pairs over "
+                      "{minimal, honest-zeros}; (d2) all ordered pairs over 40 helper-level steps (5 documents x open_zipfile / "
+                      "validate_zip_bytesio under strict / default / loose limits, ZipContext, is_odf_encrypted); "
+                      if ctx.tier == "quick" else
+                      "(d1) all ordered pairs over the 63 (format, variant) symbols + all triples of 7 variants within each format; "
+                      "(d2) all ordered triples over 40 helper-level steps; ") +
+                   "every step judged against the reference on its own bytes and limits, member reads need a covering validation; "
                    "distinct_nontrivial = distinct (part, variant, outcome) classes",
-           "per_part": parts, "outcomes": dict(sorted(outs.items())[:120]), "samples": samples[:6], "exhaustive": True}
+           "per_part": parts,
+           "bounds": {"history_length": 2 if ctx.tier == "quick" else 3, "carriers": CARRIERS, "history_variants": HIST_VARIANTS,
+                      "helper_steps": len(UDOCS) * len(UENTRIES), "helper_limits": sorted(ULIMITS)},
+           "outcomes": dict(sorted(outs.items())[:160]), "samples": samples[:6], "exhaustive": True}
     return {"coverage": cov, "failures": fails, "harness_errors": herr,
             "assumptions": ["whether directory entries count towards the entry-count limit is not settled by the statement: count-boundary "
                             "vectors contain no directories", "the 10th 'ZIP-container extractor' of the statement is read as the macro-enabled "
